@@ -83,6 +83,12 @@ def pr(e, alt):
         return [['n', e[1], e[2]]]
     if k == 'S':
         return [['s', e[1]]]
+    if k == 'V':                                   # variable / array element holding the number (t, x)
+        return [['v', e[1], e[2], e[3]]]
+    if k == 'W':                                   # string variable / array element
+        return [['w', e[1], e[2]]]
+    if k == 'F':                                   # conversion function call: one unit of the expression
+        return [['f', e[1], pr(e[2], alt)]]
     if k == 'P':
         return paren(True, pr(e[1], alt))
     if k == 'U':
@@ -94,6 +100,8 @@ def pr(e, alt):
 
 def par_all(e):
     k = e[0]
+    if k == 'F':
+        return ['F', e[1], par_all(e[2])]
     if k == 'P':
         return ['P', par_all(e[1])]
     if k == 'U':
@@ -114,6 +122,8 @@ def depth(e):
 
 def count_ops(e):
     k = e[0]
+    if k == 'F':
+        return 1 + count_ops(e[2])
     if k == 'P':
         return count_ops(e[1])
     if k == 'U':
@@ -133,6 +143,12 @@ def coq_expr(e):
         return '(vN %d %s)' % (e[1], '(%d)' % e[2] if e[2] < 0 else '%d' % e[2])
     if k == 'S':
         return '(vS %s)' % core.zl(list(e[1].encode('latin-1')))
+    if k == 'V':
+        return '(vN %d %s)' % (e[2], '(%d)' % e[3] if e[3] < 0 else '%d' % e[3])
+    if k == 'W':
+        return '(vS %s)' % core.zl(list(e[2].encode('latin-1')))
+    if k == 'F':
+        return '(vF %d %s)' % (e[1], coq_expr(e[2]))
     if k == 'P':
         return '(Par %s)' % coq_expr(e[1])
     if k == 'U':
@@ -248,6 +264,8 @@ def val_bin(o, a, b):
     wide = max(ta, tb)
     if o in (6, 7, 2):                                 # + - * : widest operand type; integers are promoted
         r = {6: x + y, 7: x - y, 2: x * y}[o]          # to single (interpretation I1, design_notes/C18.md)
+        if o != 2 and wide <= SNG and BOUND[SNG] in (abs(x), abs(y)):
+            raise OutOfDomain()                        # single + - at 2^24: pcbasic is one unit off (C04/C05)
         return chk(max(wide, SNG), r)
     if o == 3:                                         # / never integer
         if y == 0 or x % y:
@@ -275,6 +293,45 @@ def val_bin(o, a, b):
     return chk(INT, r - 0x10000 if r & 0x8000 else r)
 
 
+FN_NAME = {1: b'CINT', 2: b'CSNG', 3: b'CDBL', 4: b'ABS', 5: b'SGN', 6: b'INT', 7: b'FIX'}
+
+
+def val_fn(f, a):
+    """Type-conversion functions on the exact domain."""
+    t, x = a
+    if t == STR:
+        if f in (4, 6):
+            return a                                   # ABS and INT pass strings unchanged
+        raise BErr(13)
+    if f == 1:
+        return chk(INT, to_int16(x))
+    if f == 2:
+        return chk(SNG, x)
+    if f == 3:
+        return chk(DBL, x)
+    if f == 4:
+        return chk(max(t, SNG), abs(x))
+    if f == 5:
+        return (INT, (x > 0) - (x < 0))
+    return a                                           # INT, FIX of an integer-valued number
+
+
+def variables_of(e, acc=None):
+    """name -> (type, value) of the variables of a tree."""
+    acc = {} if acc is None else acc
+    k = e[0]
+    if k == 'V':
+        acc[e[1]] = (e[2], e[3])
+    elif k == 'W':
+        acc[e[1]] = (STR, e[2].encode('latin-1'))
+    elif k in ('P', 'U', 'F'):
+        variables_of(e[-1], acc)
+    elif k == 'B':
+        variables_of(e[2], acc)
+        variables_of(e[3], acc)
+    return acc
+
+
 def ref_eval(e, un, bi):
     k = e[0]
     if k == 'L':
@@ -285,6 +342,12 @@ def ref_eval(e, un, bi):
         return (e[1], e[2])
     if k == 'S':
         return (STR, e[1].encode('latin-1'))
+    if k == 'V':
+        return (e[2], e[3])
+    if k == 'W':
+        return (STR, e[2].encode('latin-1'))
+    if k == 'F':
+        return val_fn(e[1], ref_eval(e[2], un, bi))
     if k == 'P':
         return ref_eval(e[1], un, bi)
     if k == 'U':
@@ -343,6 +406,10 @@ def render_text(toks, blanks):
             out += b'%d' % t[2] + [b'', b'!', b'#'][t[1]]
         elif k == 's':
             out += b'"' + t[1].encode('latin-1') + b'"'
+        elif k in ('v', 'w'):
+            out += t[1].encode('latin-1')
+        elif k == 'f':
+            out += FN_NAME[t[1]] + b'(' + render_text(t[2], 0) + b')'
         elif k == 'o':
             out += OP_TEXT[t[1]]
         elif k in ('(', ')'):
@@ -428,6 +495,8 @@ class C18(core.Check):
         no = [0, 0, 0]
         tree = lambda e, tail=(), alt=no: {'k': 'tree', 'e': e, 'tail': list(tail), 'alt': alt, 'bl': 0}
         val = lambda e: {'k': 'val', 'e': e, 'alt': no, 'bl': 0}
+        var = lambda e: {'k': 'var', 'e': e, 'alt': no, 'bl': 0}
+        V = lambda name, t, x: ['V', name, t, x]
         toks = lambda t: {'k': 'toks', 't': t, 'bl': 0}
         return [
             tree(L(1)),
@@ -488,6 +557,19 @@ class C18(core.Check):
             val(B(11, N(16777217, 2), N(2))), val(B(13, N(40000, 1), N(40001, 2))),
             val(B(14, N(40000, 2), N(1))), val(B(14, N(100000, 1), ['S', 'A'])), val(B(5, ['S', 'A'], N(100000, 1))), val(U(3, N(40000, 1))), val(B(4, N(7), N(32768, 1))),
             val(B(2, N(4096, 1), N(4096, 1))), val(B(2, N(123456789, 2), N(1000))),
+            # evaluating an expression does not change its operands (seed C18d: mul() wrote into a double variable)
+            var(B(6, B(2, V('P#', 2, 3), N(2)), V('P#', 2, 3))),
+            var(B(2, B(2, V('D#(1)', 2, 7), V('D#(1)', 2, 7)), V('D#(1)', 2, 7))),
+            var(B(2, V('P#', 2, 3), N(2))), var(B(2, N(2), V('P#', 2, 3))), var(B(2, V('F!', 1, 3), V('F!', 1, 3))),
+            var(B(3, V('Q#', 2, 12), N(4))), var(B(6, V('Q#', 2, 12), N(4))), var(B(7, V('Q#', 2, 12), V('Q#', 2, 12))),
+            var(B(1, V('G!', 1, 3), N(2))), var(B(4, V('A%', 0, 7), N(2))), var(B(5, V('I%(3)', 0, 7), N(2))),
+            var(U(1, V('P#', 2, 5))), var(U(1, V('A%', 0, 5))), var(U(3, V('B%', 0, 5))), var(U(2, V('E!(1)', 1, 5))),
+            var(B(14, V('A%', 0, 6), V('B%', 0, 3))), var(B(9, V('P#', 2, 5), V('F!', 1, 5))),
+            var(B(6, ['W', 'S$', 'ab'], ['W', 'S$', 'ab'])), var(B(9, ['W', 'U$(2)', 'a'], ['W', 'T$', 'a'])),
+            var(B(6, ['F', 4, V('P#', 2, -5)], V('P#', 2, -5))), var(B(2, ['F', 3, V('P#', 2, 5)], N(2))),
+            var(B(2, ['F', 2, V('F!', 1, 5)], N(2))), var(B(6, ['F', 1, V('A%', 0, 5)], V('A%', 0, 5))),
+            var(['F', 6, V('D#(2)', 2, -7)]), var(['F', 7, V('E!(1)', 1, -7)]), var(['F', 5, V('Q#', 2, -7)]),
+            var(['F', 4, ['W', 'S$', 'ab']]), var(['F', 5, ['W', 'S$', 'ab']]), var(['F', 1, V('F!', 1, 40000)]),
             val(B(18, N(1), ['S', 'a'])),                             # D18a: 1 IMP "a" must be Type mismatch
             val(B(18, N(1, 2), ['S', ''])), val(B(18, ['S', 'a'], N(1))),
             val(B(10, ['S', 'ab'], ['S', 'b'])), val(B(8, ['S', 'a'], ['S', 'ab'])),
@@ -574,6 +656,89 @@ class C18(core.Check):
                 continue
         return ['B', 9, ['N', 1, 16777216], ['N', 2, 16777217]]
 
+    VAR_NAMES = {0: ['A%', 'B%', 'I%(0)', 'I%(3)'], 1: ['F!', 'G!', 'E!(1)'], 2: ['P#', 'Q#', 'D#(1)', 'D#(2)'],
+                 3: ['S$', 'T$', 'U$(2)']}
+
+    def gen_env(self):
+        """A few variables / array elements of each type with values (leaves of 'var' trees)."""
+        rng = self.rng
+        env = []
+        for _ in range(rng.choice([1, 2, 2, 3, 3, 4])):
+            t = rng.choice([0, 1, 2, 2, 2, 1, 3])
+            name = rng.choice(self.VAR_NAMES[t])
+            if any(v[1] == name for v in env):
+                continue
+            if t == 3:
+                env.append(['W', name, rng.choice(['', 'a', 'b', 'ab', 'A'])])
+            else:
+                x = self.num_leaf(t, 0.2)[2]
+                if rng.random() < 0.3:
+                    x = -x
+                if x == 0 and rng.random() < 0.7:
+                    x = rng.choice([2, 3, 5, 7])
+                env.append(['V', name, t, x])
+        if not env:
+            env.append(['V', 'P#', 2, 7])
+        return env
+
+    def gen_var_tree(self, env, depth_left):
+        rng = self.rng
+        r = rng.random()
+        if depth_left == 0 or r < 0.2:
+            if rng.random() < 0.7:
+                return rng.choice(env)
+            return self.num_leaf(rng.choice([0, 0, 1, 2]), 0.1)
+        if r < 0.27:
+            return ['P', self.gen_var_tree(env, depth_left - 1)]
+        for attempt in range(12):
+            x = rng.random()
+            if x < 0.14:
+                e = ['F', rng.randrange(1, 8), self.gen_var_tree(env, depth_left - 1)]
+            elif x < 0.3:
+                e = ['U', rng.choice([1, 1, 2, 3]), self.gen_var_tree(env, depth_left - 1)]
+            else:
+                o = rng.choice([2, 2, 2, 3, 6, 6, 7, 7, 1, 4, 5] + list(range(8, 19)))
+                e = ['B', o, self.gen_var_tree(env, depth_left - 1), self.gen_var_tree(env, depth_left - 1)]
+            try:
+                ref_eval(e, val_un, val_bin)
+                return e
+            except OutOfDomain:
+                continue
+            except BErr:
+                if rng.random() < 0.3:
+                    return e
+        return rng.choice(env)
+
+    def gen_var_case_tree(self):
+        """Expression over variables that occur more than once (so that an operator writing its result into an
+        operand is seen later in the same expression, on re-evaluation, or when the variable is read back)."""
+        rng = self.rng
+        for attempt in range(20):
+            env = self.gen_env()
+            if rng.random() < 0.35:
+                nums = [v for v in env if v[0] == 'V'] or [['V', 'P#', 2, 7]]
+                X = rng.choice(nums)
+                Y = rng.choice(nums + [self.num_leaf(rng.randrange(3), 0.1)])
+                o1, o2 = [rng.choice([2, 2, 3, 6, 7, 1, 4, 5, 8, 9, 14, 15]) for _ in range(2)]
+                e = rng.choice([
+                    ['B', o2, ['B', o1, X, Y], X], ['B', o1, ['B', o1, X, X], X], ['B', o2, X, ['B', o1, X, Y]],
+                    ['B', o2, ['U', rng.choice([1, 3]), X], X], ['B', o2, ['F', rng.randrange(1, 8), X], X],
+                    ['B', o1, ['F', rng.randrange(1, 8), X], Y], ['B', o1, ['P', X], ['P', X]],
+                    ['F', rng.randrange(1, 8), ['B', o1, X, Y]]])
+            else:
+                e = self.gen_var_tree(env, rng.choice([1, 2, 2, 3, 3, 4]))
+            if not variables_of(e):
+                continue
+            try:
+                ref_eval(e, val_un, val_bin)
+                return e
+            except OutOfDomain:
+                continue
+            except BErr:
+                if rng.random() < 0.3:
+                    return e
+        return ['B', 6, ['B', 2, ['V', 'P#', 2, 3], ['N', 0, 2]], ['V', 'P#', 2, 3]]
+
     def gen_val_tree(self, depth_left, pextra):
         """Typed tree whose reference evaluation stays in the exact domain (or raises a BASIC error)."""
         rng = self.rng
@@ -626,7 +791,12 @@ class C18(core.Check):
             sel = i % 20
             alt = [rng.randrange(2) for _ in range(3)]
             bl = rng.choice([0, 0, rng.getrandbits(30)])
-            if sel < 11:
+            if sel in (9, 10):
+                e = self.gen_var_case_tree()
+                out.append({'k': 'var', 'e': e, 'alt': alt, 'bl': bl})
+                hist['var'] = hist.get('var', 0) + 1
+                note(e)
+            elif sel < 11:
                 e = self.gen_tree(rng.choice([1, 2, 3, 4, 5, 6, 6]), rng.choice([0, 0, 0.12, 0.3]))
                 if rng.random() < 0.15:
                     e = par_all(e)
@@ -711,6 +881,8 @@ class C18(core.Check):
         s = self.session()
         if case['k'] == 'val':
             return self.impl_val(s, case, toks)
+        if case['k'] == 'var':
+            return self.impl_var(s, case, toks)
         data, starts = render_bytes(toks, case['bl'])
         ins = codestream.TokenisedStream()
         ins.write(data)
@@ -725,6 +897,31 @@ class C18(core.Check):
         except Exception as e:
             res = common.canon_exc(e)
         return [len(toks)] + res
+
+    @staticmethod
+    def literal(v):
+        t, x = v
+        if t == STR:
+            return b'"' + x + b'"'
+        return b'%d' % x + [b'%', b'!', b'#'][t]
+
+    def impl_var(self, s, case, toks):
+        """Assign the variables, evaluate the expression twice, read every variable back."""
+        env = variables_of(case['e'])
+        names = sorted(env)
+        if names:
+            with core.time_limit(20):
+                msg = s.execute(b':'.join(n.encode('latin-1') + b'=' + self.literal(env[n]) for n in names))
+            if msg:
+                raise RuntimeError('assignment failed: %r' % msg)
+        plain = dict(case, k='val')
+        r1 = self.impl_val(s, plain, toks)
+        r2 = self.impl_val(s, plain, toks)
+        out = [len(toks), len(r1) - 1] + r1[1:] + [len(r2) - 1] + r2[1:]
+        for n in names:
+            r = self.impl_val(s, {'k': 'val', 'bl': 0}, [['v', n, 0, 0]])
+            out += [len(r) - 1] + r[1:]
+        return out
 
     def impl_val(self, s, case, toks):
         text = render_text(toks, case['bl'])
@@ -759,11 +956,21 @@ class C18(core.Check):
         if k == 'tree':
             return '(let t := tr_pr %s %s ++ %s in zlen t :: tr_enc (tr_parse t))' % (
                 alt, coq_expr(case['e']), coq_toks(case['tail']))
+        if k == 'var':
+            env = variables_of(case['e'])
+            after = []
+            for n in sorted(env):
+                v = [0, 0] + enc_val(env[n])
+                after += [len(v)] + v
+            return ('(let t := v_pr %s %s in let r := v_enc (v_parse t) in '
+                    'zlen t :: (zlen r :: r) ++ (zlen r :: r) ++ %s)' % (alt, coq_expr(case['e']), core.zl(after)))
         return '(let t := v_pr %s %s in zlen t :: v_enc (v_parse t))' % (alt, coq_expr(case['e']))
 
     # ---- oracle: the property read on the tree
     def oracle(self, case, out):
         k = case['k']
+        if k == 'var':
+            return self.oracle_var(case, out)
         if out[1:2] == [2]:
             return 'host exception %s escapes from expression evaluation' % out[1:]
         if k == 'toks':
@@ -771,6 +978,8 @@ class C18(core.Check):
                 return 'unexpected error %d for an ill-formed expression' % out[2]
             return None
         e = case['e']
+        if k == 'var':
+            return self.oracle_var(case, out)
         if k == 'trail':
             # a missing operand raises the corresponding error, after what precedes it has been evaluated
             try:
@@ -795,6 +1004,40 @@ class C18(core.Check):
                 (render_text(self.tokens_of(case), 0) if k == 'val' else self.tokens_of(case)), out[1:], exp)
         return None
 
+    def oracle_var(self, case, out):
+        """The expression evaluates like its operator tree over the values of the variables, evaluating it
+        again gives the same, and evaluating it does not change its operands."""
+        e = case['e']
+        text = render_text(self.tokens_of(case), 0)
+        n1 = out[1]
+        r1 = out[2:2 + n1]
+        n2 = out[2 + n1]
+        r2 = out[3 + n1:3 + n1 + n2]
+        pos = 3 + n1 + n2
+        env = variables_of(e)
+        for r in (r1, r2):
+            if r[:1] == [2]:
+                return 'host exception %s escapes from %s' % (r, text)
+        try:
+            exp = [0, 0] + enc_val(ref_eval(e, val_un, val_bin))
+        except BErr as x:
+            exp = [1, x.n]
+        except OutOfDomain:
+            exp = None
+        setup = b':'.join(n.encode('latin-1') + b'=' + self.literal(env[n]) for n in sorted(env))
+        if exp is not None and r1 != exp:
+            return 'after %s the expression %s evaluates to %s, its operator tree gives %s' % (setup, text, r1, exp)
+        for n in sorted(env):
+            ln = out[pos]
+            got = out[pos + 1:pos + 1 + ln]
+            pos += 1 + ln
+            want = [0, 0] + enc_val(env[n])
+            if got != want:
+                return 'after %s evaluating %s changed its operand %s to %s' % (setup, text, n, got[2:])
+        if r2 != r1:
+            return 'after %s evaluating %s twice gives %s then %s' % (setup, text, r1, r2)
+        return None
+
     # ---- shrinking of failing cases (tree-aware; the default would cut the nested lists blindly)
     def shrink_candidates(self, case):
         if case['k'] == 'toks':
@@ -802,10 +1045,10 @@ class C18(core.Check):
             for i in range(len(t)):
                 yield dict(case, t=t[:i] + t[i + 1:], bl=0)
             return
-        leaf = ['N', 0, 1] if case['k'] == 'val' else ['L', 1]
+        leaf = ['N', 0, 1] if case['k'] in ('val', 'var') else ['L', 1]
 
         def subtrees(e):
-            if e[0] in ('P', 'U'):
+            if e[0] in ('P', 'U', 'F'):
                 yield e[-1]
                 for x in subtrees(e[-1]):
                     yield x
@@ -817,14 +1060,14 @@ class C18(core.Check):
 
         def replaced(e):
             # e with one proper subtree replaced by a leaf, or one P / U node removed
-            if e[0] in ('P', 'U'):
-                if e[-1][0] in ('P', 'U', 'B'):
+            if e[0] in ('P', 'U', 'F'):
+                if e[-1][0] in ('P', 'U', 'B', 'F'):
                     yield e[:-1] + [leaf]
                 for x in replaced(e[-1]):
                     yield e[:-1] + [x]
             elif e[0] == 'B':
                 for i in (2, 3):
-                    if e[i][0] in ('P', 'U', 'B'):
+                    if e[i][0] in ('P', 'U', 'B', 'F'):
                         yield e[:i] + [leaf] + e[i + 1:]
                     for x in replaced(e[i]):
                         yield e[:i] + [x] + e[i + 1:]
@@ -837,6 +1080,8 @@ class C18(core.Check):
             yield dict(case, e=x)
 
     def nontrivial(self, case, out):
+        if case['k'] == 'var':
+            return out[2] == 0 and count_ops(case['e']) > 0
         return (out[1] == 0 and (case['k'] == 'toks' or count_ops(case['e']) > 0)) or case['k'] == 'trail'
 
 
